@@ -3,7 +3,10 @@ use simple_logger::SimpleLogger;
 use std::fs;
 use std::io::ErrorKind;
 use std::ops::{Deref, DerefMut};
+#[cfg(not(feature = "verif"))]
 use std::sync::{Arc, Condvar, Mutex};
+#[cfg(feature = "verif")]
+use teos::verif::sync::{Arc, Condvar, Mutex};
 use structopt::StructOpt;
 use tokio::task;
 use tonic::transport::{Certificate, Server, ServerTlsConfig};
